@@ -22,4 +22,10 @@ theorem client_uses_collected (c : ClientSummary) :
     (∀ b a, (b, a) ∈ c.attrs → a ∈ usedNames c) ∧ (∀ n, n ∈ c.nameLoads → n ∈ c.imported → n ∈ usedNames c) :=
   ⟨fun b a h => usedNames_attr c b a h, fun n h1 h2 => usedNames_import c n h1 h2⟩
 
+/-- … the name behind an alias (`from lib import helper as h` needs `helper`), a name imported only to be re-exported, and —
+behind a star import — every name the file mentions -/
+theorem client_imports_collected (c : ClientSummary) :
+    (∀ n, n ∈ c.fromNames → n ∈ usedNames c) ∧ (c.star = true → ∀ n, n ∈ c.allNames → n ∈ usedNames c) :=
+  ⟨fun n h => usedNames_from c n h, fun hs n h => usedNames_star c n hs h⟩
+
 end C08
